@@ -23,6 +23,13 @@ Direct oracles (independent of the model), written as `VIOL <prop> <hid> <step> 
       after `del tree` + gc.collect(): every delta is 0; weakrefs to user-class keys/values die
       when the harness drops its own references; capacity outside 4..65535 must raise
       ValueError; crash / ASan report.
+      node memory (only when the build exposes bplustree_c._verif_counters(), i.e. /repo carries
+      the counter hook build/c_nodes_hook.diff; silently skipped otherwise): after every call
+      temp-array PyMem_Malloc's == PyMem_Free's; at every observed step
+      node_create's - cache_aligned_free's == number of nodes in the _verif_dump() of every live
+      tree object of the process (tree, copy, trees kept alive only by an iterator); after the
+      history dropped everything + gc.collect(): created == freed.  Deltas w.r.t. the start of
+      the history (the counters are process-wide).  `VIOL C13 <hid> <step> node-memory: ...`
 Environment: C_HARNESS_ASAN=1 adds an ASan pass (only crashes / ASan reports are kept from it),
 C_HARNESS_PLAIN=1 a pass on the build without the dump hook (the production build; oracles
 only, no trace is written for the extra passes); C_HARNESS_HIST_TIMEOUT=<s> per-history watchdog
@@ -242,6 +249,106 @@ class World:
         self.mods = mods
         self.out = []
         self.viol = []
+        # node-memory accounting: the extension is loaded twice (top-level module and the
+        # package's private copy), each with its own counters and its own BPlusTree type
+        cm = [mods[0], sys.modules.get(getattr(mods[1], "__name__", "bplustree") + ".bplustree_c")]
+        self.cmods = []
+        for m in cm:
+            if m is not None and hasattr(m, "_verif_counters") and not any(m is x for x in self.cmods):
+                self.cmods.append(m)
+        self.nm_reported = False
+        self.nm_seen = {}
+
+    # --- node memory (hook builds that expose _verif_counters; see the module docstring)
+    def nm_counters(self):
+        c = [0, 0, 0, 0]
+        for m in self.cmods:
+            for i, x in enumerate(m._verif_counters()):
+                c[i] += x
+        return c
+
+    @staticmethod
+    def nm_count(nd):
+        """number of nodes in a _verif_dump() node"""
+        n, todo = 0, [nd]
+        while todo:
+            x = todo.pop()
+            if x is None:
+                continue
+            n += 1
+            if x[0] == "B":
+                todo.extend(x[4])
+        return n
+
+    def nm_live(self):
+        """(number of live tree objects in the process, total number of their nodes); trees
+        dumped by the current observation are not dumped again (self.nm_seen: id -> nodes)"""
+        types = tuple(m.BPlusTree for m in self.cmods)
+        objs = gc.get_objects()
+        trees = [o for o in objs if issubclass(type(o), types)]     # type(): no attribute lookup on foreign objects
+        del objs
+        total = 0
+        for o in trees:
+            n = self.nm_seen.get(id(o))
+            if n is None:
+                for m in self.cmods:
+                    if issubclass(type(o), m.BPlusTree):
+                        d = m.BPlusTree._verif_dump(o)
+                        n = self.nm_count(d[0])
+                        d = None
+                        break
+            total += n
+        o = None
+        k = len(trees)
+        del trees
+        return k, total
+
+    def nm_begin(self):
+        if not self.cmods:
+            return
+        gc.collect()
+        c = self.nm_counters()
+        self.nm_seen = {}
+        _, live = self.nm_live()
+        self.nm_base = (c[0] - c[1] - live, c[2] - c[3], c)
+
+    def nm_viol(self, what):
+        if not self.nm_reported:
+            self.nm_reported = True
+            self.viol.append("VIOL C13 %s %d node-memory: %s" % (self.hid, self.step, what))
+
+    def nm_temp_check(self):
+        """after every call: every temporary split array was given back"""
+        if not self.cmods or self.nm_reported:
+            return
+        c = self.nm_counters()
+        b = self.nm_base
+        if c[2] - c[3] != b[1]:
+            self.nm_viol("temporary split arrays: %d PyMem_Malloc'ed, %d PyMem_Free'd since the start of the history" %
+                         (c[2] - b[2][2], c[3] - b[2][3]))
+
+    def nm_node_check(self, end=False):
+        """node blocks created - freed == nodes of all live trees (end: no tree may be left)"""
+        if not self.cmods or self.nm_reported:
+            self.nm_seen = {}
+            return
+        k, live = self.nm_live()
+        self.nm_seen = {}
+        c = self.nm_counters()
+        b = self.nm_base
+        cr, fr = c[0] - b[2][0], c[1] - b[2][1]
+        if c[0] - c[1] - live != b[0]:
+            if end:
+                self.nm_viol("after dropping every tree and gc.collect(): %d node blocks created, %d freed since the start "
+                             "of the history, %d nodes in %d tree object(s) still alive (created > freed + live: leaked "
+                             "node blocks; <: a block was freed twice or while still part of a tree)" % (cr, fr, live, k))
+            else:
+                self.nm_viol("%d node blocks created, %d freed since the start of the history, but the %d live tree "
+                             "object(s) have %d nodes (created - freed > live: leaked node blocks; <: a block was freed "
+                             "twice or while still part of a tree)" % (cr, fr, k, live))
+        elif end and (c[0] - c[1] != b[2][0] - b[2][1]):
+            self.nm_viol("after dropping every tree and gc.collect(): %d node blocks created, %d freed since the start of the "
+                         "history (%d tree object(s) with %d nodes still alive)" % (cr, fr, k, live))
 
     # --- objects
     def create_objects(self):
@@ -305,6 +412,8 @@ class World:
         d = t._verif_dump()
         tree, chain, size, modc = d
         s = self.render_node(tree, cnt)
+        if self.cmods:
+            self.nm_seen[id(t)] = self.nm_count(tree)
         r = (s, " ".join(str(c) for c in chain), size, modc)
         d = tree = None
         return r
@@ -491,9 +600,11 @@ class World:
     def observe(self, res, force):
         """dump + RC lines and the slot-count oracle (hook builds)"""
         hid, step = self.hid, self.step
+        self.nm_temp_check()
         if not force and step % self.dump_every != 0:
             return
         cnt = {}
+        self.nm_seen = {}
         if self.variant != "plain":
             if self.t is None:
                 self.out.append("T %s %d -" % (hid, step))
@@ -519,6 +630,7 @@ class World:
             o = None
             if bad:
                 self.viol.append("VIOL C13 %s %d refcount does not match the slots holding the object: %s" % (hid, step, "; ".join(bad[:4])))
+            self.nm_node_check()
 
     def construct(self):
         mod, pkg = self.mods
@@ -540,6 +652,7 @@ class World:
         self.out.append(self.hline)
         self.step = 0
         status(self.step)
+        self.nm_begin()
         self.create_objects()
         self.mirror, self.copy, self.copy_mirror, self.iters = {}, None, {}, {}
         self.t, o0 = self.construct()
@@ -588,12 +701,16 @@ class World:
             self.K = self.V = None
             self.names = {}
             gc.collect()
+            self.nm_temp_check()
+            self.nm_node_check(end=True)
             alive = [n for n, w in self.wrefs if w() is not None]
             self.out.append("E %s %s" % (hid, " ".join("%s=1" % n for n in alive) if alive else "balanced"))
             if alive:
                 self.viol.append("VIOL C13 %s end objects still alive after the tree and all harness references are gone (a value referred to an iterator over the tree): %s" % (hid, " ".join(alive[:20])))
             return
         gc.collect()
+        self.nm_temp_check()
+        self.nm_node_check(end=True)
         d = self.deltas()
         left = " ".join("%s=%d" % (nm, x) for (nm, _), x in zip(self.tracked, d) if x)
         self.out.append("E %s %s" % (hid, left if left else "balanced"))
